@@ -44,7 +44,7 @@ theorem source_shape_pinned_round3 :
     ∧ C05.visibleAtInit = ["FortranBlockData", "FortranCommon", "FortranModule", "FortranNamelist"]
     ∧ C05.inheritTests = ["var.permission == 'public'", "bp.permission == 'private'"]
     ∧ C05.commonCorrelatePin = "f0f9d51e38f21465" ∧ C05.namelistCorrelatePin = "0e6c9b5eb5f6f79d"
-    ∧ C05.typeCorrelatePin = "695bb8843b7fd1e5"
+    ∧ C05.typeCorrelatePin = "ca1fb7d3a9485444"
     ∧ (C05.visibleInCorrelate = [("FortranBlockData", "typeorder")] ∨ C05.visibleInCorrelate = []) := by decide
 
 /-- Every child list that holds entities with an accessibility is passed through
